@@ -376,6 +376,9 @@ func (c *compiler) evalUpdateIndex(left, index, value interface{}) error {
 					if elemType != t {
 						err = fmt.Errorf("cannot use '%v' (untyped %s constant) as %s value in assignment", value, t, elemType)
 					}
+				} else if !val.Type().AssignableTo(elemType) {
+					// an interface with methods does not hold every value
+					err = fmt.Errorf("cannot use '%v' (%s) as %s value in assignment", value, val.Type(), elemType)
 				}
 
 				if err == nil && !rv.Index(i).CanSet() {
@@ -608,6 +611,9 @@ func (c *compiler) arrayOperator(l interface{}, r interface{}, op string) (inter
 			if elemType != t {
 				err = fmt.Errorf("cannot append '%v' (untyped %s constant) as %s value in assignment", r, t, elemType)
 			}
+		} else if t := reflect.ValueOf(r).Type(); !t.AssignableTo(elemType) {
+			// an interface with methods does not hold every value
+			err = fmt.Errorf("cannot append '%v' (%s) as %s value in assignment", r, t, elemType)
 		}
 		if err == nil {
 			return reflect.Append(reflect.ValueOf(l), reflect.ValueOf(r)).Interface(), nil
